@@ -29,6 +29,8 @@ func (Engine) Generate(r *core.Rng, property, tier string) *core.Plan {
 		g.rewardWorkload()
 	case "C28":
 		g.chainWorkload(true)
+	case "C23":
+		g.restartWorkload()
 	default:
 		g.chainWorkload(false)
 	}
@@ -433,6 +435,47 @@ func (g *gen) chainWorkload(depositHeavy bool) {
 				if r.Bool(0.1) {
 					g.p.Add(Step{Op: "rollback", D: 1 + r.Intn(3), Mode: 1})
 					g.h -= 2
+				}
+			}
+		}
+	}
+}
+
+// restartWorkload (C23, DPoS half): the C21 block workload without rollbacks
+// or seeks; 1-3 times a checkpoint is saved, 0-12 blocks later the node stops
+// (cleanly, or with one or both checkpoint files torn, or without files) and
+// comes up again from the files; the restarted node is fed the following
+// blocks alongside the one that never restarted.
+func (g *gen) restartWorkload() {
+	r := g.r
+	nBlocks := r.Range(35, 80)
+	if g.tier == "thorough" {
+		nBlocks = r.Range(40, 120)
+	}
+	type ev struct {
+		at   int
+		kind string
+		mode int
+		d    int
+	}
+	var evs []ev
+	for i, n := 0, r.Range(1, 3); i < n; i++ {
+		at := r.Range(4, nBlocks-2)
+		evs = append(evs, ev{at: at, kind: "ckpt"})
+		gap := []int{0, 0, 1, 1, 2, 3, 4, 6, 8, 12}[r.Intn(10)]
+		mode := 0
+		if r.Bool(0.3) {
+			mode = r.Range(1, 4)
+		}
+		evs = append(evs, ev{at: at + gap, kind: "restart", mode: mode, d: r.Intn(1000)})
+	}
+	g.h = 1
+	for b := 0; b < nBlocks; b++ {
+		g.p.Add(g.block(false))
+		for _, k := range []string{"ckpt", "restart"} { // a save before the restart of the same block
+			for _, e := range evs {
+				if e.at == b && e.kind == k {
+					g.p.Add(Step{Op: k, Mode: e.mode, D: e.d})
 				}
 			}
 		}
